@@ -30,13 +30,15 @@ fn permutation(mut k: usize, n: usize) -> Vec<usize> {
 }
 
 async fn mutual(mut sim: Sim, seed: u64, gated: bool) -> Result<Value, String> {
+    // a connection limit of 1 must not get in the way: the pair never has more than one peer
+    let limit = [None, None, Some(1)][sim.rng.gen_range(0..3)];
     let o = Opts {
         nodes: 2,
         ops: 0,
         faults: false,
         restarts: false,
         known: false,
-        limit: None,
+        limit,
         idle_ms: 10_000,
         keepalive_ms: Some(3_000),
         hetero: false,
@@ -133,7 +135,11 @@ async fn mutual(mut sim: Sim, seed: u64, gated: bool) -> Result<Value, String> {
         // the property's premise: both handshakes finished
         sim.run.obs(-1, "obs.converged", json!({"a": 0, "b": 1}));
     }
+    // (when loss made both dials time out nothing was established: outside the property's premise)
     for (a, b) in [(0usize, 1usize), (1, 0)] {
+        if oks == 0 {
+            break;
+        }
         let nonce = sim.nonce();
         let net = sim.net(a).clone();
         let r = sim::rpc(
